@@ -138,9 +138,22 @@ def ratio_ref(k, d):
 
 def erase_broadcast(t):
     """x * ones(shape) only broadcasts; the values are x."""
+    def shape_only(ix):
+        if isinstance(ix, sp.Tuple):
+            return all(shape_only(x) for x in ix.args)
+        return ix in (T.ELLIPSIS_T, T.NONE_T) or (fname(ix) == "slc" and all(a == T.NONE_T for a in ix.args))
+
     def fn(n):
         if fname(n) == "ones":
             return sp.Integer(1)
+        # buf = np.empty(shape); buf[...] = x   -- the values are x, broadcast into the buffer
+        if fname(n) == "store" and len(n.args) == 3 and fname(n.args[0]) in ("empty", "zeros", "ones", "full") \
+                and n.args[1] == T.ELLIPSIS_T:
+            return n.args[2]
+        # x[..., None], x[None, :]: new axes only
+        if fname(n) == "item" and len(n.args) == 2 and isinstance(n.args[1], sp.Tuple) and shape_only(n.args[1]) \
+                and any(a == T.NONE_T for a in n.args[1].args):
+            return n.args[0]
         return None
     return T.rewrite(t, fn)
 
